@@ -17,7 +17,16 @@ MUT_FAILN=$(echo "$MUT_FAIL" | grep -c FAILED)
 COMPILE_ERR=$(grep -c "could not compile" /tmp/seed_mut.log)
 echo "clean: pass=$CLEAN_PASS fail=$CLEAN_FAIL ; mutated: failing=$MUT_FAILN compile_errors=$COMPILE_ERR"
 echo "$MUT_FAIL"
-NON_DEMO=$(echo "$MUT_FAIL" | grep FAILED | grep -v -i "seed\|demo" | wc -l)
+# a failing test counts against the seed when it belongs to the pinned baseline suite
+python3 - <<'PY' > /tmp/seed_baseline_names.txt
+import json
+for n in json.load(open('/root/.vp/BASELINE.json'))['stable_pass']:
+    print(n.split('::', 1)[1])
+PY
+NON_DEMO=0
+for t in $(echo "$MUT_FAIL" | grep FAILED | sed 's/^test \([^ ]*\) .*/\1/'); do
+  if grep -qx "$t" /tmp/seed_baseline_names.txt; then NON_DEMO=$((NON_DEMO+1)); echo "baseline test fails: $t"; fi
+done
 git checkout -q -- . && git clean -fdq -e SEEDED -e target
 if [ "$CLEAN_FAIL" = "0" ] && [ "$MUT_FAILN" -gt 0 ] && [ "$NON_DEMO" = "0" ] && [ "$COMPILE_ERR" = "0" ]; then
   mkdir -p /verif/seeded/$ID
